@@ -2,7 +2,7 @@
    list, prod, unit, sumbool map to OCaml natives; N/Z/positive/byte stay Coq datatypes. *)
 From Coq Require Import Extraction ExtrOcamlBasic.
 From ChitchatModel Require Import Base SMap Ids Params Bytes NodeState Stream DeltaWire Message
-  Cluster FD Chitchat World.
+  Cluster FD Chitchat World Monitors.
 Extraction Language OCaml.
 Extraction "model.ml"
   Byte.of_N Byte.to_N N.add N.mul N.div_eucl N.compare Z.add Z.mul Z.opp Z.compare Z.div_eucl
@@ -14,4 +14,8 @@ Extraction "model.ml"
   Cluster.stale_nodes Cluster.staleness_cmp Cluster.compute_digest
   NodeState.get NodeState.contains_key NodeState.key_values NodeState.num_key_values
   NodeState.iter_prefix NodeState.get_versioned
-  Bytes.id_len.
+  Bytes.id_len
+  Monitors.c02_ok Monitors.c03_ok Monitors.c04_nodes_ok Monitors.c05_own_ok Monitors.c07_delta_ok
+  Monitors.digest_excludes Monitors.c12_sets_ok Monitors.c12_after_eval_ok Monitors.c13_watch_ok
+  Monitors.c20_ok Monitors.kvs_eqb Monitors.ledger_max Monitors.any_reset
+  Chitchat.eval_pred NodeState.check_delta_status NodeState.to_mstatus.
